@@ -133,6 +133,59 @@ def symbol_kind(sym):
     return 'KInst'
 
 
+class RecCanvas:
+    """a canvas that only logs what a symbol's draw() paints (no matplotlib): ('poly', xs, ys) / ('text', x, y, text, anchor) / ..."""
+    def __init__(self): self.ops = []
+    def setForecolor(self, *a, **k): pass
+    def setFillcolor(self, *a, **k): pass
+    def setLineWidth(self, *a, **k): pass
+    def drawText(self, x, y, text=None, anchor=None, **k): self.ops.append(('text', x, y, str(text), anchor))
+    def drawPolygon(self, x, y, fill=False, **k): self.ops.append(('poly', list(x), list(y)))
+    def drawLine(self, x0, y0, x1, y1, **k): self.ops.append(('line', x0, y0, x1, y1))
+    def drawRectangle(self, x0, y0, x1, y1, **k): self.ops.append(('rect', x0, y0, x1, y1))
+    def drawRoundRectangle(self, *a, **k): self.ops.append(('rrect',) + a)
+    def drawArc(self, *a, **k): self.ops.append(('arc',) + a)
+    def drawEllipse(self, *a, **k): self.ops.append(('ellipse',) + a)
+    def drawSpline(self, *a, **k): self.ops.append(('spline',) + a)
+    def drawImage(self, *a, **k): self.ops.append(('image',) + a)
+
+
+def painted_markers(x, in_ports, out_ports):
+    """INDEPENDENT of getPortSourcePos / getPortSinkPos: what x.draw() paints.  A pin marker is a small closed polygon
+    (at most 16 x 12 px) that sits on the left edge (input side) or the right edge (output side) of the symbol.  Which port a
+    marker belongs to: the port whose NAME is written as a label beside it (anchor 'w' right of an input marker, anchor 'e' left of
+    an output marker) when labels are painted and the names are unambiguous, else the drawing order (k-th marker = k-th port).
+    returns [(port, (x0, y0, x1, y1))]"""
+    rc = RecCanvas()
+    try:
+        x.draw(rc)
+    except Exception:
+        return []
+    left, right = x.x, x.x + x.getWidth()
+    ins, outs = [], []
+    for k, op in enumerate(rc.ops):
+        if op[0] != 'poly' or len(op[1]) < 5 or (op[1][0], op[2][0]) != (op[1][-1], op[2][-1]): continue
+        x0, x1, y0, y1 = min(op[1]), max(op[1]), min(op[2]), max(op[2])
+        if x1 - x0 > 16 or y1 - y0 > 12 or x1 - x0 < 2 or y1 - y0 < 2: continue
+        box = (int(x0), int(y0), int(x1), int(y1))
+        lab = None
+        for op2 in rc.ops[k + 1:k + 2]:                      # the label, if any, is painted right after its marker
+            if op2[0] == 'text' and y0 - 2 <= op2[2] <= y1 + 4: lab = op2
+        if x0 == left and (x1 < right or not out_ports): ins.append((box, lab))
+        elif x1 == right: outs.append((box, lab))
+    res = []
+    for marks, ports, anchor in ((ins, list(in_ports), 'w'), (outs, list(out_ports), 'e')):
+        if not marks or not ports: continue
+        names = [p.name for p in ports]
+        labelled = all(l is not None and l[4] == anchor for _, l in marks) and len(set(names)) == len(names)
+        if labelled:
+            for box, l in marks:
+                if l[3] in names: res.append((ports[names.index(l[3])], box))
+        elif len(marks) == len(ports):
+            res += [(pt, box) for pt, (box, _) in zip(ports, marks)]
+    return res
+
+
 def dump_layout(s, conn):
     """symbols = the entries of symbol_matrix (that is what drawAll draws), nets = s.nets."""
     sid = {}
@@ -152,6 +205,7 @@ def dump_layout(s, conn):
     # where each drawn instance / port symbol puts each pin of the thing it stands for (symbol geometry, asked per port —
     # independent of the nets): (symbol id, pin, x, y)
     pins = []
+    marks = []
     children = conn['_children']
 
     def pos(x, f, port):
@@ -175,6 +229,11 @@ def dump_layout(s, conn):
             for f, pt in todo:
                 xy = pos(x, f, pt)
                 if xy is not None: pins.append({'sym': sid[id(x)], 'pin': conn['_pin_of_port'][id(pt)], 'x': xy[0], 'y': xy[1]})
+            if e[0] == 'ch': mk = painted_markers(x, children[e[1]].inPorts, children[e[1]].outPorts)
+            elif e[0] == 'in': mk = painted_markers(x, [], [o])
+            else: mk = painted_markers(x, [o], [])
+            for pt, box in mk:
+                marks.append({'sym': sid[id(x)], 'pin': conn['_pin_of_port'][id(pt)], 'box': box})
     n_drawn = len(sid)
     undrawn = {}
     nch = len(conn['children'])
@@ -206,7 +265,7 @@ def dump_layout(s, conn):
                                                      getattr(n.sink, 'name', '?'), n.sinkPort.name if n.sinkPort is not None else None)})
     in_matrix = set(id(x) for x in s.symbol_matrix.flatten() if x is not None)
     lost = ['%s %s' % (type(o).__name__, getattr(o, 'name', '?')) for o in s.objs if id(o) not in in_matrix]
-    return {'syms': syms, 'nets': nets, 'pins': pins, 'undrawn_net_ends': undrawn, 'objs_not_in_matrix': lost, 'n_drawn': n_drawn}
+    return {'syms': syms, 'nets': nets, 'pins': pins, 'marks': marks, 'undrawn_net_ends': undrawn, 'objs_not_in_matrix': lost, 'n_drawn': n_drawn}
 
 
 # ---------------------------------------------------------------------------------------------- Coq terms
@@ -234,7 +293,8 @@ def layout_term(lay):
     ns = '; '.join('Net %d (End %d %s) (End %d %s) %s %s' % (n['wire'], n['src'][0], _opt(n['src'][1], _pin), n['snk'][0], _opt(n['snk'][1], _pin),
                                                             _opt(n.get('from'), _pt), _opt(n.get('to'), _pt)) for n in lay['nets'])
     ps = '; '.join('PinAt %d %s %s %s' % (a['sym'], _pin(a['pin']), _z(a['x']), _z(a['y'])) for a in lay.get('pins', []))
-    return '(Lay [%s] [%s] [%s])' % (ss, ns, ps)
+    ms = '; '.join('MarkAt %d %s %s %s %s %s' % ((m['sym'], _pin(m['pin'])) + tuple(_z(v) for v in m['box'])) for m in lay.get('marks', []))
+    return '(Lay [%s] [%s] [%s] [%s])' % (ss, ns, ps, ms)
 
 KINDS = ('KInst', 'KIn', 'KOut', 'KInOut', 'KPass', 'KFbStart', 'KFbStop', 'KMissing')
 
